@@ -82,11 +82,18 @@ structure Pkt.WF (p : Pkt) : Prop where
   pad : p.padLen < 256
 
 theorem validHdr_of_WF (h : Hdr) (wf : h.WF) : validHdr h = true := by
+  have hpt : h.pt.toNat ≤ 0x7F := by
+    have := wf.pt
+    have h2 : h.pt.toNat < 128 := by simpa [UInt8.lt_iff_toNat_lt] using this
+    omega
   simp only [validHdr, rtpMaxCsrc_val, Bool.and_eq_true]
-  refine ⟨decide_eq_true wf.ncsrc, ?_⟩
-  cases he : h.ext with
-  | none => rfl
-  | some e => simp [wf.extAligned e he]
+  refine ⟨⟨⟨decide_eq_true hpt, decide_eq_true wf.ncsrc⟩, ?_⟩, ?_⟩
+  · cases he : h.ext with
+    | none => rfl
+    | some e => simp [wf.extAligned e he]
+  · cases he : h.ext with
+    | none => rfl
+    | some e => have := wf.extLen e he; simp; omega
 
 /-- what `protect` puts after the header when it uses rollover count `roc` -/
 def rtpWireBody (S : Suite) (c : Ctx) (p : Pkt) (roc : Nat) : Bytes :=
